@@ -10,8 +10,24 @@ def weights(rng, n):
     """non-uniform upstream weighting"""
     return [rng.choice([-2.0, -1.0, 0.5, 1.0, 1.5, 3.0]) + 0.25 * (i % 3) for i in range(n)]
 
-def finish(p, y, yshape, rng, leaves, weighted=True):
-    """back-propagate an arbitrary upstream weighting through y and observe the operands"""
+def finish(p, y, yshape, rng, leaves, weighted=True, skip=None, skip_exact=False, skip_shape=None):
+    """back-propagate an arbitrary upstream weighting through y and observe the operands.
+    skip = a tensor of y's shape that y was computed from: with some probability y is first joined with it by an operation whose
+    back edges point at its operands directly (Concat in either order; ElMax / ElMin when `skip_exact`: values that are equal
+    are exactly equal) — a skip connection: the operand is reached by the walk both directly and through y"""
+    sshape = list(yshape) if skip_shape is None else list(skip_shape)
+    cdims = [d for d in range(len(yshape))
+             if len(sshape) == len(yshape) and all(sshape[j] == yshape[j] for j in range(len(yshape)) if j != d)]
+    if skip is not None and cdims and rng.random() < 0.35:
+        how = rng.choice(['concat-xy', 'concat-yx', 'concat-xy'] + (['elmax', 'elmin'] if skip_exact and sshape == list(yshape) else []))
+        if how.startswith('concat'):
+            d = rng.choice(cdims)
+            pair = (skip, y) if how == 'concat-xy' else (y, skip)
+            y = p.bind('concat %s,%s %d' % (pair[0], pair[1], d))
+            yshape = list(yshape); yshape[d] += sshape[d]
+        else:
+            y = p.bind('%s %s %s' % (how, skip, y))
+        p.tag('skip-connection', 'skip:' + how)
     if weighted:
         g = p.tensor(yshape, weights(rng, prod(yshape)))
         z = p.bind('mul %s %s' % (y, g))
@@ -40,11 +56,11 @@ def c02_case(rng, op, i, tier):
         vals = pos(n) if op == 'log' else ([rng.uniform(-1.2, 1.2) for _ in range(n)] if op == 'tan' else gen(n))
         x = p.tensor(shape, vals, tracked=True)
         y = p.bind('%s %s' % (op, x))
-        finish(p, y, shape, rng, [x])
+        finish(p, y, shape, rng, [x], skip=x)
     elif op == 'scale':
         x = p.tensor(shape, gen(n), tracked=True)
         y = p.bind('scale %s %s' % (x, f2b(rng.choice([0.0, -1.0, 2.5, 0.125]))))
-        finish(p, y, shape, rng, [x])
+        finish(p, y, shape, rng, [x], skip=x)
     elif op == 'pow':
         mode = rng.choice(['pos', 'pos', 'zero', 'negint'])
         if mode == 'pos':
